@@ -16,7 +16,7 @@ extern "C" void __sanitizer_set_death_callback(void (*)(void)) __attribute__((we
 
 extern "C" const char* __asan_default_options()
 {
-    return "handle_abort=1:detect_leaks=0:detect_container_overflow=1:allocator_may_return_null=0:"
+    return "exitcode=77:handle_abort=1:detect_leaks=0:detect_container_overflow=1:allocator_may_return_null=0:"
            "malloc_context_size=12:detect_stack_use_after_return=0";
 }
 extern "C" const char* __ubsan_default_options() { return "print_stacktrace=1"; }
@@ -83,8 +83,8 @@ static void write_fail(const std::string& sig, const std::string& msg, const voi
 static void death_callback()
 {
     static bool once = false;
-    if (once)
-        return;
+    if (once || g_cur_data == nullptr)
+        return; // not inside a case: nothing of ours to blame
     once = true;
     std::string id = harness_info().id;
     write_fail(id + "/sanitizer", "sanitizer or abort while running the case (see log)", (const void*)g_cur_data, g_cur_size);
@@ -294,7 +294,9 @@ int main(int argc, char** argv)
             printf("FALSIFIED %s :: %s\n", last_fail.signature.c_str(), last_fail.message.c_str());
         }
         flush_report();
-        return ok ? 0 : 1;
+        fflush(stdout);
+        fflush(stderr);
+        _exit(ok ? 0 : 1); // skip static destructors of the (uninstrumented) rapidcheck library
     }
     fprintf(stderr, "unknown mode %s\n", mode.c_str());
     return 2;
